@@ -1,6 +1,7 @@
 package c17
 
 import (
+	"bytes"
 	"fmt"
 	"math/rand/v2"
 	"net"
@@ -541,6 +542,28 @@ func judge(r *mon.Rec, a *acc, v []byte, via string) {
 				panic("encode/decode failed: " + err.Error())
 			}
 			p = q
+		case "history":
+			// the packet has a past: the option held another value of the same length, was read (and the result
+			// handed to a caller who wrote into it), and was then edited in place; what counts is the value it holds now
+			old := make([]byte, len(v))
+			for i := range v {
+				old[i] = ^v[i]
+			}
+			p.Options[a.code] = old
+			a.got(p)
+			scribbleResult(p, a.name)
+			a.got(p)
+			copy(p.Options[a.code], v)
+			if first := a.got(p); first != want && want != unjudged {
+				got = first
+				return
+			}
+			scribbleResult(p, a.name)
+			if !bytes.Equal(p.Options[a.code], v) {
+				// the result is a view of the option's own bytes: writing into it changed the raw value (not judged)
+				aliasViews++
+				copy(p.Options[a.code], v)
+			}
 		case "absent":
 		}
 		got = a.got(p)
@@ -575,6 +598,76 @@ func judge(r *mon.Rec, a *acc, v []byte, via string) {
 	r.Count("result."+wf, 1)
 	if r.NSamples() < 6 && len(v) > 3 && len(v) < 12 && wf == "wf" && (a.code == 121 || a.code == 82 || a.code == 119) {
 		r.Sample(map[string]any{"accessor": a.name, "raw": mon.Hex(v), "via": via, "result": want})
+	}
+}
+
+var aliasViews int
+
+// scribbleResult calls the accessor through reflection and overwrites everything reachable from what it returned
+// (the caller owns the result: C17 says what the next read returns, whatever the caller did with the previous one).
+func scribbleResult(p *dhcpv4.DHCPv4, name string) {
+	m := reflect.ValueOf(p).MethodByName(name)
+	if !m.IsValid() {
+		return
+	}
+	var args []reflect.Value
+	switch {
+	case m.Type().NumIn() == 0:
+	case m.Type().NumIn() == 1 && m.Type().In(0) == reflect.TypeOf(time.Duration(0)):
+		args = []reflect.Value{reflect.ValueOf(defDur)}
+	default:
+		return
+	}
+	for _, out := range m.Call(args) {
+		scribble(out, 0)
+	}
+}
+
+func scribble(v reflect.Value, depth int) {
+	if depth > 6 || !v.IsValid() {
+		return
+	}
+	switch v.Kind() {
+	case reflect.Slice, reflect.Array:
+		for i := 0; i < v.Len(); i++ {
+			scribble(v.Index(i), depth+1)
+		}
+		if v.Kind() == reflect.Slice && v.Len() > 1 { // reorder too (callers sort lists)
+			a, b := v.Index(0), v.Index(v.Len()-1)
+			if a.CanSet() && b.CanSet() {
+				t := reflect.New(a.Type()).Elem()
+				t.Set(a)
+				a.Set(b)
+				b.Set(t)
+			}
+		}
+	case reflect.Pointer, reflect.Interface:
+		if !v.IsNil() {
+			scribble(v.Elem(), depth+1)
+		}
+	case reflect.Map:
+		it := v.MapRange()
+		for it.Next() {
+			scribble(it.Value(), depth+1)
+		}
+	case reflect.Struct:
+		for i := 0; i < v.NumField(); i++ {
+			if v.Type().Field(i).IsExported() {
+				scribble(v.Field(i), depth+1)
+			}
+		}
+	case reflect.Uint8, reflect.Uint16, reflect.Uint32, reflect.Uint64, reflect.Uint:
+		if v.CanSet() {
+			v.SetUint(^v.Uint())
+		}
+	case reflect.Int8, reflect.Int16, reflect.Int32, reflect.Int64, reflect.Int:
+		if v.CanSet() {
+			v.SetInt(v.Int() ^ 0x55)
+		}
+	case reflect.String:
+		if v.CanSet() {
+			v.SetString("scribbled")
+		}
 	}
 }
 
@@ -661,6 +754,9 @@ func TestCheck(t *testing.T) {
 				if vi%8 == 0 {
 					judge(r, a, v, "wire")
 				}
+				if vi%4 == 1 && len(v) > 0 {
+					judge(r, a, v, "history")
+				}
 			}
 		}
 		if r.Shard == 0 {
@@ -669,6 +765,7 @@ func TestCheck(t *testing.T) {
 		}
 	}
 	r.Set("exhaustive", true)
+	r.Count("history.results_that_are_views_of_the_raw_value", aliasViews)
 	r.Set("exhaustive_scope", "every raw length 0..64 for every accessor")
 	// reverse direction: constructor -> UpdateOption -> accessor
 	m := r.Pick(20000, 4000000)
